@@ -346,7 +346,28 @@ pub fn streaming_data(
 		panning: settings.panning.k(r),
 		fade_in_tween: settings.fade_in.map(|t| t.k(r)),
 	});
-	data.slice = slice;
+	// slices are made through the public `slice()`, one that reaches the end as an open-ended
+	// re-slice of a shorter one (positions stay absolute), like `apply_slice` for static sounds
+	{
+		use kira::sound::{EndPosition, PlaybackPosition, Region};
+		let n = decoder.data.len;
+		data = match slice {
+			None => data,
+			Some((a, b)) if b == n && a <= n => data
+				.slice(Region {
+					start: PlaybackPosition::Samples(0),
+					end: EndPosition::Custom(PlaybackPosition::Samples((a + 1).min(n))),
+				})
+				.slice(Region {
+					start: PlaybackPosition::Samples(a),
+					end: EndPosition::EndOfAudio,
+				}),
+			Some((a, b)) => data.slice(Region {
+				start: PlaybackPosition::Samples(a),
+				end: EndPosition::Custom(PlaybackPosition::Samples(b)),
+			}),
+		};
+	}
 	(data, probe)
 }
 
